@@ -284,6 +284,10 @@ static ares_bool_t ares_addr_equal(const struct ares_addr *addr1,
         return ARES_TRUE;
       }
       break;
+    case AF_UNSPEC:
+      /* Source address unknown both times (e.g. no agetsockname callback):
+       * treat as unchanged, otherwise the cookie is regenerated per request */
+      return ARES_TRUE;
     default:
       break; /* LCOV_EXCL_LINE */
   }
